@@ -326,7 +326,7 @@ theorem apply_detach_single_tx_any_view (p : Params) (kindOf : Nat → OutKind) 
             simp only [Option.getD_some]
             unfold proj
             have hC' : ¬ (t' = 1 ∨ t' = 2) := by rw [← hty hC]; exact hC
-            simp [hC, hC', hs, hty hC]
+            simp [hC', hs, hty hC]
         · rw [if_neg hin]
           rw [if_neg hin] at hfw
           rcases vget_saveView_cases db v' hn' k with hc | ⟨hc, e2, he2, hkeep⟩
@@ -711,6 +711,62 @@ theorem settle_tables (pre : NodeLedger.State) (post : Node.State) (r : Res) :
             obtain ⟨u, c⟩ := uc
             exact Or.inr ⟨att, det, by simp [hc, hl]⟩
 
+/-- **one step of the node keeps the ledger on its main chain.**  The tables of `pre` were reached
+    by some history ending on `P ++ A`; the chain part moved its best block and `calcReorg` says:
+    leave branch `A`, adopt branch `B`.  Then after `settle` either the tables are reached by a
+    history ending on `P ++ B` (the chain part is the new one, the result is passed through), or
+    nothing moved (`.err`, best block and tables as before) — and then a fork-free node refuses
+    `P ++ B` as well. -/
+theorem settle_preserves_reach (pre : NodeLedger.State) (post : Node.State) (r : Res) (nb ob : Header)
+    (att det : List Header) {P A B : List Blk}
+    (hreach : Reach pre.params pre.kindOf (P ++ A) (pre.utxo, pre.contracts))
+    (hwA : WF (flat (P ++ A))) (hwB : WF (flat (P ++ B))) (hk : KindsOK pre.kindOf (flat (P ++ A)))
+    (hnr : NoReuse P A)
+    (hatt : att.map (fun a => (a.height, pre.txsOf a.id)) = B)
+    (hdet : det.map (fun d => pre.txsOf d.id) = A.reverse.map (·.2))
+    (hb : post.best ≠ pre.node.best) (hnb : post.header post.best = some nb)
+    (hob : post.header pre.node.best = some ob)
+    (hc : post.calcReorg (2 * post.fuel) nb ob [] [] = some (att, det)) :
+    (Reach pre.params pre.kindOf (P ++ B) ((pre.settle post r).1.utxo, (pre.settle post r).1.contracts) ∧
+        (pre.settle post r).1.node = post ∧ (pre.settle post r).2 = r) ∨
+    ((pre.settle post r).1.utxo = pre.utxo ∧ (pre.settle post r).1.contracts = pre.contracts ∧
+        (pre.settle post r).2 = .err ∧ (pre.settle post r).1.node.best = pre.node.best ∧
+        replay pre.params (P ++ B) = none) := by
+  have hcore := ledgerReorg_eq pre att det
+  rw [hatt, hdet] at hcore
+  cases hl : pre.ledgerReorg att det with
+  | some uc =>
+    obtain ⟨u, c⟩ := uc
+    left
+    rw [settle_accepted pre post r nb ob att det u c hb hnb hob hc hl]
+    refine ⟨?_, rfl, rfl⟩
+    exact Reach.reorg hreach hwA hwB hk hnr (by rw [← hcore]; exact hl)
+  | none =>
+    right
+    obtain ⟨h1, h2, _, _, h5, h6⟩ := settle_refused pre post r nb ob att det hb hnb hob hc hl
+    refine ⟨h5, h6, h1, h2, ?_⟩
+    have inv := reach_inv hreach
+    obtain ⟨d, hd⟩ := inv.replays
+    rw [replayU_append] at hd
+    cases hP : replayU pre.params P [] with
+    | none => rw [hP] at hd; simp at hd
+    | some dP =>
+      have hgen := reorg_general (B := B) hP inv.good inv.struct hwA hwB hk
+      rw [hl] at hcore
+      have hv : reorgView pre.params pre.kindOf pre.utxo B (A.reverse.map (·.2)) = none := by
+        unfold reorgCore at hcore
+        cases hv : reorgView pre.params pre.kindOf pre.utxo B (A.reverse.map (·.2)) with
+        | none => rfl
+        | some v => rw [hv] at hcore; simp at hcore
+      simp only at hgen
+      rw [hv] at hgen
+      unfold replay
+      rw [replayFrom_eq, replayU_append, hP]
+      simp only [Option.bind_some]
+      cases hB : replayU pre.params B dP with
+      | none => rfl
+      | some dB => rw [hB] at hgen; exact False.elim hgen
+
 /-! non-vacuity of the `settle` hypotheses: a node at genesis receives block 1 -/
 def gH : Header := { id := 0, parent := 99, height := 0, slot := 0, rank := 0, sup := [] }
 def b1H : Header := { id := 1, parent := 0, height := 1, slot := 1, rank := 5, sup := [] }
@@ -732,5 +788,13 @@ example : ((preEx blk1.2).settle postEx .ok).1.utxo =
 example : ((preEx blk2.2).settle postEx .ok).2 = .err ∧ ((preEx blk2.2).settle postEx .ok).1.node.best = 0 ∧
     ((preEx blk2.2).settle postEx .ok).1.utxo = (preEx blk2.2).utxo := by
   refine ⟨by decide, by decide, by decide⟩
+
+/-- the hypotheses of `settle_preserves_reach` on the same step (`P = [blk0]`, `A = []`, `B = [blk1]`) -/
+example : Reach (preEx blk1.2).params (preEx blk1.2).kindOf ([blk0] ++ []) ((preEx blk1.2).utxo, (preEx blk1.2).contracts) ∧
+    [b1H].map (fun a => (a.height, (preEx blk1.2).txsOf a.id)) = [blk1] ∧
+    KindsOK (preEx blk1.2).kindOf (flat ([blk0] ++ [])) ∧ WF (flat ([blk0] ++ [blk1])) := by
+  refine ⟨?_, rfl, by decide, by decide⟩
+  exact Reach.reorg (P := []) (A := []) (B := [blk0]) (st := ([], [])) Reach.genesis
+    (by decide) (by decide) (by decide) (noReuse_of_disjoint_ids (by decide)) rfl
 
 end BytomModel.Props.C10
